@@ -253,6 +253,13 @@ def fam_structcopy():
                   "static struct S%d mk%d (int seed) { struct S%d s; for (int i = 0; i < %d; i++) s.b[i] = (unsigned char) (seed * 7 + i * 13); return s; }" % (n, n, n, n),
                   "static unsigned long sum%d (struct S%d s) { unsigned long h = 0; for (int i = 0; i < %d; i++) h = h * 131 + s.b[i]; return h; }" % (n, n, n),
                   "static struct S%d pass%d (struct S%d s, int k) { s.b[k %% %d] ^= 0x5a; return s; }" % (n, n, n, n)]
+        # copies between elements reached through one pointer: every (destination form, source form) pair
+        forms = ["*p", "p[0]", "p[i]", "*(p + i)", "p[i + 1]", "q[0]", "*q", "q[-1]", "a[i]", "a[2]"]
+        for d, s_ in itertools.product(forms, forms):
+            if d == s_: continue
+            cases.append(("structcopy size %d %s = %s" % (n, d, s_), helper,
+                          "{ struct S%d a[4]; for (int k = 0; k < 4; k++) a[k] = mk%d (k + 1); volatile int vi = 1; int i = vi; struct S%d *p = a, *q = a + 2; %s = %s; P (@ID@, sum%d (a[0])); P (@ID@ + 1000000, sum%d (a[1])); P (@ID@ + 2000000, sum%d (a[2])); P (@ID@ + 3000000, sum%d (a[3])); }"
+                          % (n, n, n, d, s_, n, n, n, n)))
         cases.append(("structcopy size %d assign/arg/return" % n, helper, "{ struct S%d a = mk%d (3), b, c[2]; b = a; c[1] = pass%d (b, 2); c[0] = c[1]; a.b[0]++; P (@ID@, sum%d (b)); P (@ID@ + 1000000, sum%d (c[0])); P (@ID@ + 2000000, sum%d (pass%d (pass%d (a, 1), 0))); }" % (n, n, n, n, n, n, n, n)))
     return cases
 
